@@ -487,3 +487,66 @@ def run_custom_version_case(si, oi, v21):
     # custom content that was not named in the change set is still there
     keep = [k for k in j0 if k.startswith("x_") and not (oi == 2 and k == "x_note")]
     return all(j1.get(k) == j0[k] for k in keep) and (oi != 2 or "x_note" not in j1)
+
+
+# ---- the dictionary route for every kind of mapping, and revoked content that carries no 'modified'
+import collections as _collections  # noqa: E402
+
+
+class _SubDict(dict):
+    pass
+
+
+FORMS = [dict, _collections.OrderedDict, _SubDict, _collections.UserDict]
+REVOKED_SHAPES = [  # (keys present, is it revoked)
+    ({"created": True, "modified": True, "revoked": True}, True), ({"created": True, "modified": False, "revoked": True}, True),
+    ({"created": True, "modified": True, "revoked": False}, False), ({"created": True, "modified": False, "revoked": False}, False),
+]
+
+
+def mapping_forms(fi: int, v21: bool, oi: int, ki: int, ri: int, op: int) -> bool:
+    """
+    pre: 0 <= fi < len(FORMS) and 0 <= oi < 8 and 0 <= ki < 4 and 0 <= ri < len(REVOKED_SHAPES) and 0 <= op <= 2
+    post: _
+    """
+    fi, v21, oi, ki, ri, op = pick(fi, len(FORMS)), pickb(v21), pick(oi, 8), pick(ki, 4), pick(ri, len(REVOKED_SHAPES)), pick(op, 3)
+    with Native():
+        ok = run_mapping_case(fi, v21, oi, ki, ri, op)
+    V.reached()
+    return ok
+
+
+def run_mapping_case(fi, v21, oi, ki, ri, op):
+    """content given as any mapping (dict, OrderedDict, a dict subclass, UserDict) is versioned under the rules of ITS spec version: the new
+    modified is strictly later as written at that version's precision, whatever the clock reads; revoked content -- also content that has
+    'created' and 'revoked' but no 'modified' -- is refused by new_version, revoke and the marking operations"""
+    shape, is_revoked = REVOKED_SHAPES[ri]
+    old = BASE + dt.timedelta(microseconds=OLD_US[ki] if v21 else (OLD_US[ki] // 1000) * 1000)
+    d = {"type": "malware", "id": ID, "created": utils.format_datetime(old), "name": "x"}
+    d.update({"spec_version": "2.1", "is_family": False} if v21 else {"labels": ["x"]})
+    if shape["modified"]:
+        d["modified"] = utils.format_datetime(old)
+    d["revoked"] = shape["revoked"]
+    data = FORMS[fi](d)
+    s1 = versioning.get_timestamp
+    versioning.get_timestamp = lambda: utils.STIXdatetime(old + dt.timedelta(microseconds=OFFSETS[oi]))
+    try:
+        try:
+            if op == 0:
+                n = versioning.new_version(data, name="y")
+            elif op == 1:
+                n = versioning.revoke(data)
+            else:
+                n = stix2.markings.add_markings(data, MK1)
+        finally:
+            versioning.get_timestamp = s1
+    except RevokeError:
+        return is_revoked
+    except (STIXError, ValueError, TypeError):
+        return False
+    if is_revoked:
+        return False
+    text = json.loads(json.dumps(dict(n), default=utils.format_datetime))
+    precision = ("millisecond", "min") if v21 else ("millisecond", "exact")
+    written = utils.parse_into_datetime(text["modified"], *precision)
+    return written > utils.parse_into_datetime(utils.format_datetime(old), *precision) and n["id"] == ID and n["created"] == d["created"] and dict(data) == d
